@@ -333,6 +333,10 @@ func (s *Subject) MangleRetained() {
 	s.RetLists = nil
 }
 
+// CheckSizes makes Observe and the model compare file sizes reported by listings / Lstat with the
+// content length. Wrappers that store transformed bytes (encryption) switch it off.
+var CheckSizes = true
+
 // Observe walks the whole observable tree of fs through its public interface.
 // Anomalies (duplicate names, phantom entries, disagreement between the query families)
 // are reported separately from the tree.
@@ -418,7 +422,7 @@ func observeDir(fs filesystem.Filespace, path string, into *Node, depth, maxDept
 				add("ReadFile(%q) failed for a listed file: %v", sub, err)
 			}
 			n.Data = append([]byte{}, data...)
-			if fi.Size() != int64(len(data)) {
+			if CheckSizes && fi.Size() != int64(len(data)) {
 				add("%q: listed size %d, ReadFile returned %d bytes", sub, fi.Size(), len(data))
 			}
 		}
